@@ -7,7 +7,7 @@ KINDS = 'ms'
 RULE = ('random and fixture 80-byte headers (parse, re-serialise, hash) and wrong lengths; compact targets with exponent 0..40; '
         "the length scanner on C01's generated transactions followed by random bytes; synthetic framed blocks of 1..300 generated "
         'transactions (legacy/segwit/mixed, count boundaries 252/253) where every parsed transaction must equal the parse of its own '
-        'slice; the mainnet fixtures (quick: the legacy block in full; thorough: all three) incl. merkle root of the implementation '
+        'slice and re-serialise to it; the three mainnet fixture blocks in full incl. merkle root of the implementation '
         'txids = header merkle root and wtxids -> coinbase witness commitment. non-trivial: block with >= 2 transactions, header, '
         'target with exponent != 3, segwit scanner input')
 TRUSTED = ['SHA-256 parameter instantiated by BU/Crypto/Sha256.lean (checked against hashlib)']
@@ -40,6 +40,9 @@ def block_cases(ctx, raw, slices, tag, nt=True):
         exp = [tx_digest(Transaction.from_raw(s.hex())) for s in slices]
         return ('s:echo ' + ' '.join(head[1:] + [str(len(exp))] + exp), ans)
     yield Case(f'blk_parse {hx(raw)}', 'ms', nontrivial=nt, tag=tag, spec=spec)
+    # faithful to the raw block: every parsed transaction re-serialises to its own slice
+    exp = hashlib.sha256(b''.join(slices)).hexdigest()
+    yield Case(f'blk_reser {hx(raw)}', 's', nontrivial=nt, tag=tag + '-reser', spec=lambda ans, exp=exp: (f's:echo {len(slices)} {exp}', ans))
 
 
 def cases(ctx):
@@ -88,7 +91,7 @@ def cases(ctx):
     yield Case(f'blk_parse {hx(MAGIC + (81).to_bytes(4, "little") + bytes(80) + cs(3))}', 'm', nontrivial=True, tag='block-short', domain=False)
     yield Case(f'blk_parse {hx(MAGIC + bytes(50))}', 'm', nontrivial=True, tag='block-short', domain=False)
     # fixtures
-    for name in (FX.FILES if ctx.thorough else ['legacy']):
+    for name in FX.FILES:
         b = FX.block(name)
         slices = [t['raw'] for t in b['txs']]
         ctx.count('fixture-block-' + name)
@@ -146,6 +149,10 @@ def impl(op, a, ctx):
         with contextlib.redirect_stdout(io.StringIO()):
             b = Block.from_raw(F.bytes())
         return 'ok ' + block_line(b)
+    if op == 'blk_reser':
+        with contextlib.redirect_stdout(io.StringIO()):
+            b = Block.from_raw(F.bytes())
+        return f'ok {len(b.transactions)} ' + hashlib.sha256(b''.join(bytes.fromhex(t.to_hex()) for t in b.transactions)).hexdigest()
     if op == 'fx_merkle':
         return 'ok ' + hx(impl_block(a[0]).header.merkle_root[::-1])
     if op == 'fx_wcommit':
